@@ -21,6 +21,7 @@ def run(res, tier, replay=None):
     c01.run_c1(prog, res)
     c01.run_c2(prog, res)
     c01.run_c3(prog, res)
+    c01.run_c4(prog, res)
     bufbudget.run(prog, res, "C01", "C01.h", {"sexp.c"}, floor=2)
     prims = c01.primitives(prog)
     c01i.run(prog, res, floor=12, prims=prims, advisory_filter=c01.scope_filter())
@@ -43,6 +44,7 @@ def run(res, tier, replay=None):
             "C01.c1": lambda p, r: c01.run_c1(p, r),
             "C01.c2": lambda p, r: c01.run_c2(p, r),
             "C01.c3": lambda p, r: c01.run_c3(p, r, floor=0),
+            "C01.c4": lambda p, r: c01.run_c4(p, r, floor=0),
             "C01.h": lambda p, r: bufbudget.run(p, r, "C01", "C01.h", {"sexp.c"}, floor=0),
             "C01.i": lambda p, r: c01i.run(p, r, floor=0, prims=c01.primitives(p), advisory_filter=flt),
             "C01.j": lambda p, r: c01i.run_views(p, r, floor=0, prims=c01.primitives(p), advisory_filter=flt),
@@ -79,7 +81,7 @@ def run(res, tier, replay=None):
         "(m) an allocation size c0 + c1*count with a program-supplied count stays below 2^63 for the largest count the comparisons "
         "in force admit. (n) a VM case that stores the result of a C function which can return an exception object tests it before "
         "dispatching the next instruction (numeric entry points excluded: untested only after fixnum checks). "
-        "(c3) every request to grow the VM stack is for at least the quantity whose comparison with the stack length led to it, plus one, and sexp_grow_stack fails when its limit is below the request. (p) every integer division or modulo by the unboxed value of an operand is dominated by a non-zero test; a function "
+        "(c3) every request to grow the VM stack is for at least the quantity whose comparison with the stack length led to it, plus one, and sexp_grow_stack fails when its limit is below the request. (c4) loops that push bytes back into a port buffer (buf[--offset]) are dominated by a comparison involving that offset. (p) every integer division or modulo by the unboxed value of an operand is dominated by a non-zero test; a function "
         "that leaves the test to its callers makes the parameter zero-unsafe and every call site must guard, pass a non-zero "
         "constant or hand the obligation up (SIGFPE kills the process). (q) no immediate constant (SEXP_FALSE, NULL ...) is passed "
         "to a parameter that the callee, or a function it hands the value to, dereferences before testing it. (r) indexes into the "
